@@ -286,13 +286,33 @@ Definition spec_instances (pre : list (N * term)) (k : core) (post : list (N * t
                      then map (fun o => map g [0; 1; 2]%N ++ o) (expected k g) else [])
            (assignments [0; 1; 2]%N).
 
-Definition count_t (x : list term) (l : list (list term)) : nat := List.length (filter (tlist_eqb x) l).
+(* the same comparison organised by input assignment (each ground instance of the inputs X,Y,Z is numbered) *)
+Fixpoint uidx (t : term) (l : list term) (i : N) : N :=
+  match l with
+  | [] => i
+  | u :: r => if term_eqb t u then i else uidx t r (N.succ i)
+  end.
+Definition tuple_index (ins : list term) : N := fold_left (fun acc t => (acc * 5 + uidx t universe 0)%N) ins 0%N.
+
+Definition indexed (tuple : list term) : N * list term := (tuple_index (firstn 3 tuple), skipn 3 tuple).
+
+(* for every assignment of the inputs: its number and the output tuples expected with it (none when a binding of the case
+   does not hold) *)
+Definition spec_indexed (pre : list (N * term)) (k : core) (post : list (N * term)) : list (N * list (list term)) :=
+  map (fun h => let g := val_of h in
+                (tuple_index (map g [0; 1; 2]%N),
+                 if holds_bindings g pre && holds_bindings g post then expected k g else []))
+      (assignments [0; 1; 2]%N).
 
 (* exact: every expected ground instance is covered by exactly one answer and nothing else is covered;
    otherwise: covered at least once and nothing else is covered *)
-Definition ground_ok (exact : bool) (spec got : list (list term)) : bool :=
-  forallb (fun x => if exact then Nat.eqb (count_t x got) (count_t x spec) else Nat.ltb 0 (count_t x got)) spec
-  && forallb (fun x => Nat.ltb 0 (count_t x spec)) got.
+Definition ground_ok (exact : bool) (spec : list (N * list (list term))) (got : list (N * list term)) : bool :=
+  forallb (fun sp : N * list (list term) =>
+             let mine := filter (fun t : N * list term => N.eqb (fst t) (fst sp)) got in
+             forallb (fun t : N * list term => existsb (tlist_eqb (snd t)) (snd sp)) mine &&
+             forallb (fun o => let c := List.length (filter (fun t : N * list term => tlist_eqb (snd t) o) mine) in
+                               if exact then Nat.eqb c 1 else Nat.ltb 0 c) (snd sp)) spec
+  && forallb (fun t : N * list term => existsb (fun sp : N * list (list term) => N.eqb (fst sp) (fst t)) spec) got.
 
 Definition is_exact (k : core) : bool := match k with KPlain _ => false | _ => true end.
 
@@ -303,7 +323,7 @@ Definition chk_model (pre : list (N * term)) (k : core) (post : list (N * term))
   | _ => same_answers (model_answers pre k post) impl
   end.
 Definition chk_ground (pre : list (N * term)) (k : core) (post : list (N * term)) (impl : list answer) : bool :=
-  ground_ok (is_exact k) (spec_instances pre k post) (flat_map instances impl).
+  ground_ok (is_exact k) (spec_indexed pre k post) (map indexed (flat_map instances impl)).
 Definition check_case (pre : list (N * term)) (k : core) (post : list (N * term)) (impl : list answer) : bool :=
   chk_model pre k post impl && chk_ground pre k post impl.
 
